@@ -75,6 +75,12 @@ const _: () = {
         }
     }
 
+    impl Schema for bool {
+        fn schema() -> impl Into<schema::SchemaRef> {
+            bool()
+        }
+    }
+
     impl Schema for u8 {
         fn schema() -> impl Into<schema::SchemaRef> {
             integer()
